@@ -6,7 +6,7 @@ from harness import caseutil
 from harness.families import fam, ALL_FAMS, BOUNDS
 
 PROPS_FILE = "Props/C13.v"
-MODEL_FILES = ["Model/Conv.v"]
+MODEL_FILES = ["Model/Conv.v", "Model/Float32.v"]
 GENERATED = ("TablesGen",)
 RULE = ("every candidate (ints within +-2 of +-2^31, 2^32, +-2^63, 2^64, 0, +-1, +-2^200, bools, objects with __index__, "
         "floats incl. inf/nan/subnormals/float32 limits/out-of-float32-range, str, bytes of length 0..8, None, objects "
@@ -349,6 +349,112 @@ def run(ctx):
     ctx.cov["rejected"] = nrej
     ctx.cov["entry_points"] = entry_counts
     ctx.sample({"family": "IF", "candidate": "0.1", "expected_readback": f32(0.1)})
+    float_model_tie(ctx, ctx.rng, ctx.n(600, 20000))
+
+
+FHDR = ("From Coq Require Import ZArith List.\nFrom BT Require Import Model.CaseUtil Model.Float32.\n"
+        "Import ListNotations.\nOpen Scope Z_scope.\n")
+
+
+def _farg_term(x):
+    if isinstance(x, int) and not isinstance(x, bool):
+        return "FInt %s" % Z(x)
+    if math.isnan(x):
+        return "FNan"
+    if math.isinf(x):
+        return "FInf %s" % ("true" if x < 0 else "false")
+    if x == 0:
+        return "FZero %s" % ("true" if math.copysign(1.0, x) < 0 else "false")
+    mant, exp = math.frexp(x)
+    return "FDouble %s %s" % (Z(int(mant * 2 ** 53)), Z(exp - 53))
+
+
+def _fobs_term(y):
+    if y is None:
+        return "ORejected"
+    if math.isnan(y):
+        return "ONan"
+    if math.isinf(y):
+        return "OInf %s" % ("true" if y < 0 else "false")
+    if y == 0:
+        return "OZero %s" % ("true" if math.copysign(1.0, y) < 0 else "false")
+    mant, exp = math.frexp(abs(y))
+    m, e = int(mant * 2 ** 53), exp - 53
+    while m % 2 == 0:
+        m //= 2
+        e += 1
+    return "OFinite %s %d%%positive %s" % ("true" if y < 0 else "false", m, Z(e))
+
+
+def float_model_tie(ctx, rng, n):
+    """The tie of Model/Float32.v (theorems C13_float_*) to the C extension: floats and ints offered as VALUES of the
+    float-valued families through item assignment / setdefault / update / the constructor / __setstate__; what reads
+    back must be, bit for bit, what the model stores (round to nearest even into binary32, infinities on overflow,
+    signed zeros on underflow, ints through binary64 first, ints beyond the doubles rejected)."""
+    from harness import caseutil
+    args = [v for k, v in candidates() if k in ("float", "int")]
+    for _ in range(n):
+        r = rng.random()
+        if r < 0.25:          # exact ties between two neighbouring float32 numbers, and their double neighbours
+            q = rng.randrange(-149, 104)
+            m = rng.randrange(2 ** 23, 2 ** 24) if q > -149 or rng.random() < 0.5 else rng.randrange(1, 2 ** 23)
+            x = math.ldexp(2 * m + 1, q - 1)
+            args.append(rng.choice([x, math.nextafter(x, math.inf), math.nextafter(x, -math.inf), -x]))
+        elif r < 0.4:         # the subnormal range of binary32 and below
+            args.append(math.ldexp(rng.randrange(1, 2 ** 53), rng.randrange(-210, -170)) * rng.choice([1, -1]))
+        elif r < 0.55:        # around the largest float32
+            args.append(math.ldexp(rng.randrange(2 ** 52, 2 ** 53), 75 + rng.randrange(0, 3)) * rng.choice([1, -1]))
+        elif r < 0.75:        # ints that are not doubles (double rounding), ints around 2^128 and 2^1024
+            b = rng.choice([24, 25, 53, 54, 60, 77, 100, 127, 128, 129, 1023, 1024])
+            args.append(rng.choice([1, -1]) * (2 ** b + rng.choice([0, 1, -1, 2 ** max(0, b - 24), 2 ** max(0, b - 25) + 1, 2 ** max(0, b - 54) + 1])))
+        else:
+            args.append(rng.choice([1, -1]) * math.ldexp(rng.random(), rng.randrange(-160, 140)))
+    terms, meta = [], []
+    fams = ["IF", "LF", "UF", "QF"]
+    entry_names = ["setitem", "setdefault", "update", "constructor", "setstate"]
+    for i, x in enumerate(args):
+        fn = fams[i % len(fams)]
+        f = fam(fn)
+        kind = ("BTree", "Bucket")[(i // len(fams)) % 2]
+        cls = f.cls(kind, "C")
+        k = valid_key(f, 1)
+        ep = entry_names[i % len(entry_names)]
+        try:
+            if ep == "setitem":
+                t = cls()
+                t[k] = x
+            elif ep == "setdefault":
+                t = cls()
+                t.setdefault(k, x)
+            elif ep == "update":
+                t = cls()
+                t.update([(k, x)])
+            elif ep == "constructor":
+                t = cls({k: x})
+            else:
+                t = cls()
+                t.__setstate__(((k, x),) if kind == "Bucket" else ((((k, x),),),))
+            y = t[k]
+        except TypeError:
+            y = None
+        terms.append("FC (%s) (%s)" % (_farg_term(x), _fobs_term(y)))
+        meta.append((fn, kind, ep, repr(x), repr(y)))
+        # direct statement, independent of the model: struct.pack('f') is IEEE round-to-nearest-even
+        if y is not None:
+            try:
+                want = f32(float(x))
+            except OverflowError:
+                want = None
+            if want is None or not same(want, y):
+                ctx.oracle_failure("C:F:float-value-not-the-single-precision-rounding:%s" % ep,
+                                   "%s%s/C %s: value %r reads back as %r, its single-precision rounding is %r" % (fn, kind, ep, x, y, want),
+                                   {"family": fn, "kind": kind, "entry": ep, "value": repr(x)})
+    total, bad, errs = caseutil.eval_cases("c13f", FHDR, "fcase_ok", terms, shard=400, ctype="wfcase")
+    for e in errs:
+        ctx.corr_mismatch("c13 float case file", e)
+    for i in bad[:5]:
+        ctx.corr_mismatch("Float32 model (Flocq binary32 / binary64 rounding) vs the C extension", {"case": meta[i], "term": terms[i]})
+    ctx.cov["float_values_compared_with_the_flocq_model"] = total
 
 
 def empty_damage(t, kind):
